@@ -389,6 +389,41 @@ def reorder_model(prelude, c, matches, log):
     return prelude[:start] + "\n".join(new) + "\n" + prelude[pos:]
 
 
+def check_source_pins(pinfile):
+    """Functions that no unit extracts but whose ASSUMED contract was written for a given text (specs/pins/*.json): compare the text of
+    /repo's working tree with the pinned one, comments and whitespace ignored. Returns a list of lost-anchor messages."""
+    out = []
+    try:
+        pj = json.load(open(os.path.join(VERIF, "specs", "pins", pinfile), encoding="utf-8"))
+    except Exception as e:
+        return ["pin file %s unreadable: %r" % (pinfile, e)]
+    cache = {}
+    for pin in pj["pins"]:
+        path = os.path.join(REPO, pin["file"])
+        try:
+            text = cache.setdefault(path, open(path, encoding="utf-8").read())
+            i = text.index(pin["impl"])
+            j = text.index(pin["fn"], i)
+            k = text.index("{", j)
+            depth, q = 0, k
+            while True:
+                c = text[q]
+                if c == "{":
+                    depth += 1
+                elif c == "}":
+                    depth -= 1
+                    if depth == 0:
+                        break
+                q += 1
+            cur = " ".join(re.sub(r"//[^\n]*", "", text[j:q + 1]).split())
+        except (ValueError, IndexError, OSError):
+            out.append("lost anchor: `%s` / `%s` not found in %s (its assumed contract cannot be applied)" % (pin["impl"], pin["fn"], pin["file"]))
+            continue
+        if cur != pin["text"]:
+            out.append("lost anchor: %s `%s` `%s` is no longer the text its assumed contract (word splitter stub) was written for" % (pin["file"], pin["impl"], pin["fn"]))
+    return out
+
+
 def gen_unit(name, canary=False, outname=None):
     unit = load_unit(name)
     std = open(os.path.join(VERIF, "specs", "std.rs"), encoding="utf-8").read()
@@ -455,6 +490,9 @@ def gen_unit(name, canary=False, outname=None):
     parts.append(FOOTER)
     for k in ("log", "fns", "warnings", "errors", "items"):
         meta_all[k] += m[k]
+    if name in ("lang_de", "lang_it", "lang_nl"):
+        meta_all["errors"] += check_source_pins("splitter.json")
+        meta_all["log"].append("pins: WordSplitter::{new, split, is_splittable}, WordSplitIterator::{new, next} (src/tokenizer.rs) compared with specs/pins/splitter.json")
     os.makedirs(BUILD, exist_ok=True)
     out = os.path.join(BUILD, (outname or name) + ("_canary" if canary else "") + ".rs")
     with open(out, "w", encoding="utf-8") as f:
